@@ -88,20 +88,32 @@ def A.wake (a : A) (T : Int) (yielded : Bool) : Int :=
     | some D => D
     | none => T + 0x7fffffff
 
+/-- the fibre that yielded in the previous pass joins the run queue (once) -/
+def A.requeueYielder (a : A) : A :=
+  match a.yielder with
+  | some y => { a.enqueue y with yielder := none }
+  | none => a
+
+/-- the fibres whose timeouts have expired at time `T` join the run queue in due-time order,
+    registration order for equal due times -/
+def A.expire (a : A) (T : Int) : A :=
+  { a with rq := a.rq ++ (sortByDue (a.sleepers.filter (fun x => x.2 ≤ T))).map Prod.fst,
+           sleepers := a.sleepers.filter (fun x => ¬ x.2 ≤ T) }
+
 /-- who joins the run queue at the start of a pass at time `T`, in this order: the accepted atomic
     requests (arrival order), the fibre that yielded in the previous pass, the fibres whose timeouts
     have expired (due-time order, registration order for ties) -/
-def A.intake (a : A) (T : Int) : A :=
-  let a1 := a.drain
-  let a2 := match a1.yielder with
-    | some y => a1.enqueue y
-    | none => a1
-  { a2 with yielder := none,
-            rq := a2.rq ++ (sortByDue (a2.sleepers.filter (fun x => x.2 ≤ T))).map Prod.fst,
-            sleepers := a2.sleepers.filter (fun x => ¬ x.2 ≤ T) }
+def A.intake (a : A) (T : Int) : A := (a.drain.requeueYielder).expire T
+
+/-- the dispatched fibre `d` returns `ret`: a yielder is remembered for the next pass; a fibre that exits
+    or fails will restart from its beginning; a waiting fibre needs a new reason to run again -/
+def A.returned (a : A) (d : Fid) : Ret → A
+  | .yielded => { a with yielder := some d }
+  | .waiting => a
+  | .exited | .failed => { a with priv := fun g => if g = d then 0 else a.priv g }
 
 /-- `fibre_scheduler_next(T)`: intake, dispatch the head of the run queue (if any); the fibre runs
-    `script` and returns `ret`; a fibre that exits or fails will restart from its beginning -/
+    `script` and returns `ret` -/
 def A.next (a : A) (T : Int) (script : List (Call Int)) (ret : Ret) : A × PassOut :=
   let a1 := a.intake T
   match a1.rq with
@@ -111,11 +123,7 @@ def A.next (a : A) (T : Int) (script : List (Call Int)) (ret : Ret) : A × PassO
   | d :: rest =>
     let a2 := { a1 with rq := rest, self := some d }
     let p := A.script d T a2 script
-    let a3 := p.1
-    let a4 : A := match ret with
-      | .yielded => { a3 with yielder := some d }
-      | .waiting => a3
-      | .exited | .failed => { a3 with priv := fun g => if g = d then 0 else a3.priv g }
+    let a4 := p.1.returned d ret
     (a4, { disp := some (d, a2.priv d, p.2), self := some d,
            wake := w32 (a4.wake T (decide (ret = .yielded))) })
 
